@@ -27,9 +27,24 @@ var commonAssumptions = []string{
 }
 
 var props = map[string]propCfg{
+	"C08": {
+		QuickBatches: 8, ThoroughBatches: 64, Parallel: 16, Level: "exploration", Floor: 1000,
+		Rule:        "signal cells for GPS, GLONASS, Galileo and BeiDou MSM4/MSM7: whole ms random plus 0/254/255(invalid), and all 0..255 swept with boundary fractions; fractional in {0,1,511,512,1023,random}; fine range / phase / rate in {min(invalid), min+1, -1, 0, 1, max, random}; rough rate in {-8192(invalid), +-8191, 0, +-1, random}; signal ids mostly those with a documented frequency, all 8x32 (constellation, id) pairs swept. Three quarters of the cells are obtained by decoding a one-cell message built by the independent encoder (so the library assigns the wavelength), one quarter by direct construction. Oracle: 200-bit big.Float evaluation of c/1000*(whole+frac/1024+fine*2^-24|2^-29), the same with 2^-29|2^-31 divided by the wavelength, rough+fine/10000 and its negative over the wavelength; relative tolerance 1e-12; wavelength against c/f from a table pinned in the harness; invalid-rough => zero and 'invalid' in the text; invalid-fine => rough alone; MSM4 cell vs the MSM7 cell encoding the same quantity; cases with a negative true value are executed but excluded from the numeric comparison, as the property states. Non-trivial: rough range not 0/0. Distinct by hash of the case.",
+		Assumptions: commonAssumptions,
+	},
+	"C05": {
+		QuickBatches: 8, ThoroughBatches: 64, Parallel: 16, Level: "exploration", Floor: 500, MayBeExhaustive: true,
+		Rule:        "enumerated: every boundary coordinate (-2^37, -2^37+1, +-1, 0, +-9999, +-10000, +-10001, every power of two +-1, 2^37-1) on each axis for both types; boundary antenna heights; EVERY truncation length 0..full-1 (must be an error, never a panic); EVERY other number in the 12-bit type field (must be an error). Random: 1005/1006 descriptions with full-range station id, ITRF year, reserved groups, coordinates (uniform 38-bit, realistic ECEF, boundary) and height, with and without trailing bytes. Each is encoded by the independent encoder and decoded by type1005/type1006 GetMessage and through handler.GetMessage + Message.String at both log levels; fields compared exactly; displayed coordinates/height compared with pure-integer formatting of value*0.0001 to four decimals. Non-trivial: all three coordinates non-zero, or a boundary/truncation/wrong-type case. Distinct by hash of the case.",
+		Assumptions: commonAssumptions,
+	},
+	"C20": {
+		QuickBatches: 8, ThoroughBatches: 16, Parallel: 16, Level: "exploration", Floor: 20, MayBeExhaustive: true,
+		Rule:        "complete enumeration of the 4096 message types and the two negative sentinels. For each: MSM4/MSM7/MSM predicates, constellation name and title against a table written out from the property statement; for each non-negative type five synthetic CRC-valid frames (well-formed MSM4 body, MSM7 body, 1005 body, 1006 body, random bytes; thorough adds 64 more) checked for: header/decoder family acceptance, timestamp extraction only for the fourteen MSM types, full decoding attempted for exactly MSM4, MSM7, 1005, 1006 (observed as a decoded struct or a decoder error text versus the 'cannot be displayed' strings), and non-empty display at both log levels. Non-trivial: the 14 MSM types, their neighbours 1070..1140, 1005, 1006, 1230 and the sentinels. Distinct by type number.",
+		Assumptions: commonAssumptions,
+	},
 	"C04": {
 		QuickBatches: 8, ThoroughBatches: 64, Parallel: 16, Level: "exploration", Floor: 500,
-		Rule: "random well-formed MSM4/MSM7 descriptions for all 14 types (cycled): mask shapes empty-satellite, empty-signal, 1x1, 1xk, 64x1, nx1, 32x2, 2x32, nxm with n*m<=64; cell masks all-ones / single one / sparse rows / dense / random; field styles random / all-zero / all-ones / invalid markers and neighbours / zero lock+half+CNR tails; multiple-message flag set only when a cell is present. Each description is encoded by the independent encoder at several padding sizes (0, small, 0..13, up to the 1023-byte limit) and decoded through the decoder package and through handler.GetMessage+Analyse; every exported header, satellite-cell and signal-cell field, the satellite/signal lists, the cell matrix and each cell's (satellite, signal id) attachment are compared with the description, so results at different paddings are compared with each other through it. The encoder itself is validated at every run by reproducing the captured real-receiver MSM frames bit for bit. Non-trivial: >=2 signal cells, or a zero-valued cell field, or >=3 padding bytes. Distinct by hash of (description, paddings).",
+		Rule:        "random well-formed MSM4/MSM7 descriptions for all 14 types (cycled): mask shapes empty-satellite, empty-signal, 1x1, 1xk, 64x1, nx1, 32x2, 2x32, nxm with n*m<=64; cell masks all-ones / single one / sparse rows / dense / random; field styles random / all-zero / all-ones / invalid markers and neighbours / zero lock+half+CNR tails; multiple-message flag set only when a cell is present. Each description is encoded by the independent encoder at several padding sizes (0, small, 0..13, up to the 1023-byte limit) and decoded through the decoder package and through handler.GetMessage+Analyse; every exported header, satellite-cell and signal-cell field, the satellite/signal lists, the cell matrix and each cell's (satellite, signal id) attachment are compared with the description, so results at different paddings are compared with each other through it. The encoder itself is validated at every run by reproducing the captured real-receiver MSM frames bit for bit. Non-trivial: >=2 signal cells, or a zero-valued cell field, or >=3 padding bytes. Distinct by hash of (description, paddings).",
 		Assumptions: commonAssumptions,
 	},
 	"C07": {
